@@ -36,10 +36,10 @@ FilesQuick == FilesState3 \cup FilesFramed4
 PosNots(f) == IF f = "image" THEN {"plain", "i"} ELSE {"plain", "d", "r", "colon", "hms", "dms"}
 SizeNots(f) == IF f = "image" THEN {"plain", "i"} ELSE {"plain", "d", "r", "asec", "amin"}
 (* raw values per notation (milli-units of the notation) chosen to be exactly renderable *)
-PosRaw(n, which) ==
-  CASE n \in {"plain", "d", "i"} -> IF which = 1 THEN 150250 ELSE -20500
-    [] n = "r" -> IF which = 1 THEN 2617994 ELSE -357792
-    [] n \in {"colon", "dms"} -> IF which = 1 THEN 37230500 ELSE -73815250          \* 10:20:30.5 and -20:30:15.25
+PosRaw(n, which) ==          \* which = 3: a negative value whose leading field is zero (-0:30:15, -0.504): the sign is not in the leading number
+  CASE n \in {"plain", "d", "i"} -> IF which = 1 THEN 150250 ELSE IF which = 2 THEN -20500 ELSE -504
+    [] n = "r" -> IF which = 1 THEN 2617994 ELSE IF which = 2 THEN -357792 ELSE -8800
+    [] n \in {"colon", "dms"} -> IF which = 1 THEN 37230500 ELSE IF which = 2 THEN -73815250 ELSE -1815000   \* 10:20:30.5, -20:30:15.25, -0:30:15
     [] n = "hms" -> IF which = 1 THEN 37230500 ELSE 4000250
 SizeRaw(n, j) == CASE n \in {"plain", "d", "i"} -> 1500 * j [] n = "r" -> 26180 * j [] n = "asec" -> 5400500 * j [] n = "amin" -> 90250 * j
 TextVals == {"\"M31\" core", "radius 30\"", "'tis a test", "{alpha} Cen", "see \"B\"", "a 'b' c", "end}", "{start", "5' x 3\""}
@@ -59,6 +59,8 @@ LexLines(f) ==
         p \in PosNots(f), q \in PosNots(f) \ {"hms"}},
     {Region("line", "", <<T(p, PosRaw(p, 1)), T("plain", -20500), T("plain", 151250), T(q, PosRaw(q, 2))>>, NoProps, FALSE) : p \in PosNots(f), q \in PosNots(f) \ {"hms"}},
     {Region("point", sg, <<T(p, PosRaw(p, 1)), T(q, PosRaw(q, 2))>>, [color |-> "red"], FALSE) : p \in PosNots(f), q \in PosNots(f) \ {"hms"}, sg \in {"", "+"}},
+    {Region("point", "", <<T(p, PosRaw(p, 1)), T(q, PosRaw(q, 3))>>, NoProps, FALSE) : p \in PosNots(f), q \in PosNots(f) \ {"hms"}},
+    {Region("circle", "", <<T(q, PosRaw(q, 3)), T(q, PosRaw(q, 3)), T("plain", 1500)>>, NoProps, FALSE) : q \in PosNots(f) \ {"hms"}},
     (* properties that are not carried (line=, ruler=) are dropped; the properties written after them on the line are kept *)
     {Region("line", "", <<T("plain", 150250), T("plain", -20500), T("plain", 151250), T("plain", -20000)>>, kv, FALSE) :
         kv \in {[line |-> "0 0", text |-> "arrow", tag |-> "t9"], [line |-> "1 0", width |-> "3", text |-> "one head"], [line |-> "0 0"]}},
